@@ -187,6 +187,7 @@ type Exec struct {
 	Axioms     []*Term
 	AxiomNames []string
 	resultMode bool
+	bigRefSyms []*Term // *big.Int references returned by callees so far (results of contracts)
 	SymRangesMap map[string][2]*big.Int // value ranges of this function's machine-integer symbols (see SymRanges)
 	constSeen map[string]bool
 	Debug   bool
@@ -393,6 +394,10 @@ func (ex *Exec) symVal(st *State, name string, t types.Type, depth int) Val {
 	}
 	if isBigIntPtr(t) {
 		r := ex.declInput(name+"!ref", IntSort)
+		if ex.resultMode {
+			// a reference handed back by a callee: remembered so that later allocations are known to differ from it
+			ex.bigRefSyms = append(ex.bigRefSyms, r)
+		}
 		if !ex.resultMode {
 			ex.Assumes = append(ex.Assumes, IGe(r, IntC(0)))
 			// alias for the entry value of the referenced big.Int (model extraction for replay)
@@ -1083,6 +1088,10 @@ func (ex *Exec) step(st *State, fr *Frame, ins ssa.Instruction) bool {
 		if isBigIntPtr(x.Type()) {
 			ex.nref++
 			ref := IntC(int64(-ex.nref))
+			// a fresh allocation is distinct from every reference that existed before it
+			for _, rs := range ex.bigRefSyms {
+				st.assume(Neq(rs, ref))
+			}
 			st.Big = ex.def("heap", Store(st.Big, ref, IntC(0)))
 			fr.Vals[x] = PtrV{K: PBig, Ref: ref, Elem: elem}
 			break
